@@ -23,9 +23,10 @@ TIERS = {
 }
 REQUIRED_BUCKETS = ['import:plain', 'import:as', 'import:from', 'import:from-as', 'obj:function', 'obj:class', 'obj:nested-class', 'obj:method', 'obj:nested-method',
                     'spelling:two-for-one-object', 'order:class-then-method', 'order:method-then-class', 'order:method-via-other-spelling-than-class',
-                    'ref:created-before-method-configured', 'ref:scoped', 'obj:registered-by-decorator-under-custom-name', 'include:own-imports', 'include:colliding-bound-name', 'error:name-from-includer', 'error:name-from-includee',
-                    'error:attribute', 'error:gin-reserved', 'error:late-enabling', 'error:aliased-enabling', 'error:unknown-feature', 'roundtrip:same-process',
-                    'roundtrip:fresh-process', 'equally-named-modules', 'cross-parse:second-parse', 'cross-parse:include', 'cross-parse:includer']
+                    'ref:created-before-method-configured', 'ref:scoped', 'obj:registered-by-decorator-under-custom-name', 'obj:decorated-variant-of-another-object', 'include:own-imports', 'include:colliding-bound-name', 'error:name-from-includer', 'error:name-from-includee',
+                    'error:attribute', 'error:gin-reserved', 'error:late-enabling', 'error:aliased-enabling', 'error:unknown-feature', 'error:unknown-feature-path', 'roundtrip:same-process',
+                    'roundtrip:fresh-process', 'equally-named-modules', 'cross-parse:second-parse', 'cross-parse:include', 'cross-parse:includer', 'alias-collision:second-parse', 'alias-collision:include',
+                    'alias-collision:includer']
 ORACLE_COUNTERS = ['oracle_evals', 'deliveries_compared', 'roundtrips']
 _S = {}
 
@@ -37,6 +38,7 @@ OBJECTS = {
     'alpha.K.other': ('alpha', ['K', 'other'], ['o'], 'method'),
     'alpha.K.Inner': ('alpha', ['K', 'Inner'], ['i'], 'nested-class'),
     'alpha.K.Inner.deep': ('alpha', ['K', 'Inner', 'deep'], ['d'], 'nested-method'),
+    'alpha.fa_traced': ('alpha', ['fa_traced'], ['x', 'y'], 'function'),     # functools.wraps-decorated variant of alpha.fa: its own configurable
     'alpha.decorated': ('alpha', ['decorated'], ['z'], 'function'),          # registered by its module's decorator under a custom name
     'alpha.Outer.Nested': ('alpha', ['Outer', 'Nested'], ['n'], 'nested-class'),  # likewise, and nested in another class
     'beta.fb': ('beta', ['fb'], ['x'], 'function'),
@@ -84,15 +86,20 @@ def spellings(obj, imports):
 
 
 def iter_cases(ctx, rng, n):
+  main_no = 0
   for i in range(n):
     if i % 7 == 3:
+      if rng.random() < 0.35:
+        yield {'kind': 'alias-collision', 'how': rng.choice(['second-parse', 'include', 'includer']), 'alias': rng.choice(['X', 'alpha', 'mod']),
+               'form': rng.choice(['import PK.%s as %s', 'from PK import %s as %s'])}
+        continue
       yield {'kind': 'cross-parse', 'how': rng.choice(['second-parse', 'include', 'includer']), 'ref_import': rng.choice(['import PK.alpha as M1', 'from PK import alpha as M1', 'import PK.alpha']),
              'meth_import': rng.choice(['from PK import alpha', 'import PK.alpha as Z9', 'import PK.alpha']), 'scoped': rng.random() < 0.5,
              'second_method': rng.random() < 0.5}
       continue
     if i % 5 == 4:
       yield {'kind': 'errors', 'which': rng.choice(['name-from-includer', 'name-from-includee', 'attribute', 'gin-reserved', 'late-enabling', 'aliased-enabling',
-                                                      'unknown-feature']), 'seed': rng.randrange(1 << 30)}
+                                                      'unknown-feature', 'unknown-feature-path']), 'seed': rng.randrange(1 << 30)}
       continue
     imports = rng.sample(sorted(IMPORTS), rng.choice([2, 3, 4, 5]))
     # two statements binding the same name in one file: the later wins (as in Python); keep the generator simple: distinct bound names except PK
@@ -122,7 +129,10 @@ def iter_cases(ctx, rng, n):
     if rng.random() < 0.4:
       inc_imports = rng.sample(['from PK.sub import alpha', 'import PK.sub.alpha as A1', 'from PK import beta as B', 'from PK.sub import gamma as alpha2'], rng.choice([1, 2]))
       include = {'imports': inc_imports, 'pos': rng.randrange(len(stmts) + 1)}
-    yield {'kind': 'bindings', 'imports': imports, 'stmts': stmts, 'include': include, 'seed': rng.randrange(1 << 30)}
+    main_no += 1
+    # decided here (not from the case number, whose residues are tied to the case kinds): which cases also go through a fresh interpreter
+    yield {'kind': 'bindings', 'imports': imports, 'stmts': stmts, 'include': include, 'seed': rng.randrange(1 << 30),
+           'fresh': main_no % ctx.params.get('fresh_process_every', 1 << 30) == 0}
 
 
 INC_MAP = {'from PK.sub import alpha': ('alpha', 'sub.alpha.fa', 'alpha.fa', 'x'), 'import PK.sub.alpha as A1': ('A1', 'sub.alpha.fa', 'A1.fa', 'x'),
@@ -150,7 +160,10 @@ def deliver(gin, pk, expected_keys):
     with gin.config_scope(scope or None):
       if kind == 'function':
         r = gin.get_configurable(resolve_obj(pk, obj))()
-        out[(scope, obj)] = dict(zip(params, r[1:]))
+        if obj == 'alpha.fa_traced':
+          out[(scope, obj)] = dict(zip(params, r[2:])) if r[0] == 'traced' else {'NOT-THE-DECORATED-VARIANT': r}
+        else:
+          out[(scope, obj)] = dict(zip(params, r[1:])) if r[0] != 'traced' else {'NOT-THE-BASE-FUNCTION': r}
       elif kind in ('class', 'nested-class'):
         inst = gin.get_configurable(resolve_obj(pk, obj))()
         out[(scope, obj)] = {p: getattr(inst, p) for p in params}
@@ -203,6 +216,8 @@ def run_bindings(ctx, case):
       ctx.bucket('obj:' + OBJECTS[obj][3])
       if obj in ('alpha.decorated', 'alpha.Outer.Nested'):
         ctx.bucket('obj:registered-by-decorator-under-custom-name')
+      if obj == 'alpha.fa_traced':
+        ctx.bucket('obj:decorated-variant-of-another-object')
     else:
       _, obj, sp, prm, refsp, rsc = st
       body.append('%s.%s = @%s%s()' % (sp.replace('PK', pk), prm, rsc + '/' if rsc else '', refsp.replace('PK', pk)))
@@ -319,7 +334,7 @@ def run_bindings(ctx, case):
   ctx.check(got2 == expect, 'roundtrip-delivers-other-values', 'after re-parsing config_str(): %r expected %r\n%s' % (got2, expect, s.replace(pk, 'PK')))
   ctx.check(s2 == s, 'roundtrip-text-differs', 'config_str not idempotent:\n%s\n---\n%s' % (s.replace(pk, 'PK'), s2.replace(pk, 'PK')))
   # ---- and in a fresh interpreter
-  if ctx.case_no % ctx.params['fresh_process_every'] == 0:
+  if case.get('fresh'):
     cfg = os.path.join(_S['tree'].root, pk + '_rt.gin')
     kf = os.path.join(_S['tree'].root, pk + '_keys.json')
     open(cfg, 'w').write(s)
@@ -372,6 +387,10 @@ def run_errors(ctx, case):
     exp = SyntaxError
   elif which == 'aliased-enabling':
     text = 'from __gin__ import dynamic_registration as dr\n'
+    exp = SyntaxError
+  elif which == 'unknown-feature-path':
+    text = random.Random(case['seed']).choice(['from __gin__.experimental import dynamic_registration\n', 'from __gin__.v2 import dynamic_registration\nimport %s.alpha\n' % pk,
+                                               'from __gin__.dynamic_registration import enable\n'])
     exp = SyntaxError
   else:
     text = 'from __gin__ import time_travel\n'
@@ -430,7 +449,55 @@ def run_cross_parse(ctx, case):
   gin.clear_config()
 
 
+def run_alias_collision(ctx, case):
+  """Two files bind the same import name to different modules that contain equally named objects."""
+  import gin
+  gin.clear_config()
+  pk = _S['tree'].new_package('c19a')
+  dyn = 'from __gin__ import dynamic_registration\n'
+  al = case['alias']
+  t1 = dyn + (case['form'] % ('alpha', al)).replace('PK', pk) + '\n%s.shared.v = 1\n%s.K.a = 2\n' % (al, al)
+  t2 = dyn + (case['form'] % ('beta', al)).replace('PK', pk) + '\n%s.shared.v = 10\n%s.K.a = 20\n' % (al, al)
+  ctx.bucket('alias-collision:' + case['how'])
+  ctx.fp('alias-collision', case['how'], al, case['form'])
+  try:
+    if case['how'] == 'second-parse':
+      gin.parse_config(t1)
+      gin.parse_config(t2)
+    else:
+      path = os.path.join(_S['tree'].root, pk + '_c.gin')
+      inner, outer = (t2, t1) if case['how'] == 'include' else (t1, t2)
+      open(path, 'w').write(inner)
+      gin.parse_config(outer + "include '%s'\n" % path)
+  except Exception as e:  # pylint: disable=broad-except
+    ctx.check(False, 'colliding-import-names-across-files-rejected', 'two files binding %r to different modules: %s: %s\n%s\n---\n%s' %
+              (al, type(e).__name__, str(e)[:300], t1.replace(pk, 'PK'), t2.replace(pk, 'PK')))
+    return
+  def obs():
+    return (gin.get_configurable(resolve_obj(pk, 'alpha.K'))().a, gin.get_configurable(resolve_obj(pk, 'beta.K'))().a,
+            gin.get_configurable(importlib_get(pk, 'alpha', 'shared'))()[1], gin.get_configurable(importlib_get(pk, 'beta', 'shared'))()[1])
+  ctx.count('deliveries_compared')
+  got = obs()
+  ctx.check(got == (2, 20, 1, 10), 'binding-through-other-spelling-lost', 'alias collision: (alpha.K.a, beta.K.a, alpha.shared.v, beta.shared.v) = %r, expected (2, 20, 1, 10)' % (got,))
+  s = gin.config_str()
+  gin.clear_config()
+  try:
+    gin.parse_config(s)
+    got2 = obs()
+    ctx.check(got2 == (2, 20, 1, 10) and gin.config_str() == s, 'roundtrip-delivers-other-values', 'alias collision: after re-parsing config_str(): %r\n%s' % (got2, s.replace(pk, 'PK')))
+  except Exception as e:  # pylint: disable=broad-except
+    ctx.check(False, 'config-str-roundtrip-failed', 'alias collision: re-parsing config_str() raised %s: %s\n%s' % (type(e).__name__, str(e)[:200], s.replace(pk, 'PK')))
+  gin.clear_config()
+
+
+def importlib_get(pk, mod, name):
+  import importlib
+  return getattr(importlib.import_module(pk + '.' + mod), name)
+
+
 def run_case(ctx, case):
+  if case['kind'] == 'alias-collision':
+    return run_alias_collision(ctx, case)
   if case['kind'] == 'cross-parse':
     return run_cross_parse(ctx, case)
   if case['kind'] == 'bindings':
